@@ -17,7 +17,7 @@ From Coq Require Import List Arith Bool ZArith Lia.
 From PV Require Import Base.Exn Base.Values Base.Ann Model.CheckerCfg Model.Checker Model.GenericInstance
   Model.TypeVarShapeCfg Spec.Conforms Spec.TypeVarSpec Gen.CheckerTables Gen.TypeVarShape
   Proofs.CheckerGood Proofs.CheckerRefine Proofs.CheckerSpec Proofs.CheckerTop
-  Proofs.TypeVarFrame Proofs.TypeVarTC Proofs.TypeVarCall Proofs.TypeVarHistory Proofs.TypeVarSpecLink Proofs.TypeVarUnion Proofs.TypeVarInst.
+  Proofs.TypeVarFrame Proofs.TypeVarTC Proofs.TypeVarCall Proofs.TypeVarHistory Proofs.TypeVarSpecLink Proofs.TypeVarUnion Proofs.TypeVarInst Proofs.TypeVarSpecInst.
 Import ListNotations.
 
 Definition cfg := Gen.CheckerTables.checker_cfg.
@@ -273,6 +273,46 @@ Proof.
   cbn [bind_of]. exact Ht.
 Qed.
 Print Assumptions C07_instance_nested_complete.
+
+(* ---- whole calls on Cls[xs] against the executable specification call_spec ctx (xenv_of ids xs), for ALL histories
+   h1 before and h2 after the creation.  Guards: nested_method (every TypeVar of the method is a type parameter of
+   the class: K5c), positions whose TypeVar-free part is in the vocabulary of C01/C02, one TypeVar object per id,
+   covariant class TypeVars, xs in the vocabulary of C01/C02; for MustNot additionally every X a plain class
+   (K5d: C07_instance_nested_refuted_annotation_argument is the witness that this guard is needed). *)
+Theorem C07_spec_instance_must_accepted : forall ctx w h1 h2 slot c xs iargs cd ids m sg args ret,
+  nth_error (w_classes w) c = Some cd -> cd_kind cd = KGeneric ids -> nth_error (cd_methods cd) m = Some sg ->
+  well_formed_inst ids xs -> nested_method ids sg = true -> List.length (ms_params sg) = List.length args ->
+  erased_supported ctx sg -> tvars_by_id (ms_of sg args ret) ->
+  (forall p, In p (ms_of sg args ret) -> tv_contravariant (mp_tv p) = false) ->
+  forallb (supported_in ctx) xs = true ->
+  fst (run_step cfg ctx w (snd (run_from cfg ctx w [] h1)) (SNew slot c xs iargs)) = ROk ->
+  forallb (fun s => negb (is_new_on slot s)) h2 = true ->
+  call_spec ctx (xenv_of ids xs) (sig_positions sg) (args ++ [ret]) = Must ->
+  last (run_history cfg ctx w (h1 ++ SNew slot c xs iargs :: h2 ++ [SCall slot m args ret])) RAbsent = ROk.
+Proof.
+  intros ctx w h1 h2 slot c xs iargs cd ids m sg args ret Hc Hk Hm Hw Hn Hl Hsup Hid Hcov Hxs Hnew Hh2 Hspec.
+  destruct (instance_last_step cfg ctx w h1 h2 slot c xs iargs cd ids m sg args ret Hc Hk Hm Hnew Hh2) as [tb ->].
+  now rewrite (spec_instance_must_accepted cfg good Hub ctx ids xs sg args ret Hw Hn Hl Hsup Hid Hcov Hxs Hspec tb).
+Qed.
+Print Assumptions C07_spec_instance_must_accepted.
+
+Theorem C07_spec_instance_mustnot_rejected : forall ctx w h1 h2 slot c xs iargs cd ids m sg args ret,
+  nth_error (w_classes w) c = Some cd -> cd_kind cd = KGeneric ids -> nth_error (cd_methods cd) m = Some sg ->
+  well_formed_inst ids xs -> nested_method ids sg = true -> List.length (ms_params sg) = List.length args ->
+  erased_supported ctx sg -> tvars_by_id (ms_of sg args ret) ->
+  (forall p, In p (ms_of sg args ret) -> tv_contravariant (mp_tv p) = false) ->
+  (forall x, In x xs -> exists k, x = ACls k) ->
+  fst (run_step cfg ctx w (snd (run_from cfg ctx w [] h1)) (SNew slot c xs iargs)) = ROk ->
+  forallb (fun s => negb (is_new_on slot s)) h2 = true ->
+  call_spec ctx (xenv_of ids xs) (sig_positions sg) (args ++ [ret]) = MustNot ->
+  last (run_history cfg ctx w (h1 ++ SNew slot c xs iargs :: h2 ++ [SCall slot m args ret])) RAbsent <> ROk.
+Proof.
+  intros ctx w h1 h2 slot c xs iargs cd ids m sg args ret Hc Hk Hm Hw Hn Hl Hsup Hid Hcov Hcls Hnew Hh2 Hspec.
+  destruct (instance_last_step cfg ctx w h1 h2 slot c xs iargs cd ids m sg args ret Hc Hk Hm Hnew Hh2) as [tb ->].
+  intro H. apply (spec_instance_mustnot_rejected cfg good Hub ctx ids xs sg args ret Hw Hn Hl Hsup Hid Hcov Hcls Hspec tb).
+  destruct (fst (run_call cfg ctx (refresh_of (KGeneric ids) (Some xs)) sg args ret tb)) as [[]|e]; [reflexivity|discriminate H].
+Qed.
+Print Assumptions C07_spec_instance_mustnot_rejected.
 
 (* plain functions: the verdict after any history is the verdict of the call alone *)
 Theorem C07_no_leak_plain : forall ctx w h f args ret,
